@@ -7,4 +7,4 @@ Extraction "model.ml"
   N.add N.mul N.div_eucl
   wrap32 rx_unsynced rx_new post_recv run
   gstore_new g_post_recv
-  spec_run group_clauses.
+  spec_run group_clauses g_monitor.
